@@ -351,3 +351,26 @@ add('C08.keep_empty_producer', 'C08', (TIG, "    if producer_trans_rule.consumer
     'C08.R5', 'producer rule kept even when every consumer was taken over')
 add('C08.qdim_missing', 'C08', ('utils/tfl_flatbuffer_utils.py', "    _TFLOpName.CONV_2D_TRANSPOSE: 0,\n})", "})"), 'C08.R3', 'per-channel dimension of transpose-conv removed: KeyError under the channelwise default recipes')
 add('C08.twin_guard', 'C08', (TIG, "    last_producer_rule_idx = len(transformations) - 1\n    if last_producer_rule_idx >= 0:", "    if transformations:"), (), 'truthiness test of the producer list instead of the index arithmetic', kind='twin')
+
+# ---------------------------------------------------------------------- C15
+FBU = 'utils/tfl_flatbuffer_utils.py'
+add('C15.no_check', 'C15', (PG, "    self._check_buffer_sharing()\n", "    pass\n"), 'C15.R1', '_post_process_results no longer checks buffer sharing', control=True)
+add('C15.check_conditional', 'C15', (PG, "    self._post_process_results()\n    return self.model_quant_results", "    if model_qsvs:\n      self._post_process_results()\n    return self.model_quant_results"),
+    'C15.R1', 'sharing check only when statistics were supplied (weight-only recipes bypass it)')
+add('C15.dedupe_tensor', 'C15', (FBU, "        if tensor.buffer not in buffer_to_tensor_map:\n          buffer_to_tensor_map[tensor.buffer] = []\n        buffer_to_tensor_map[tensor.buffer].append(tensor)",
+    "        tensors = buffer_to_tensor_map.setdefault(tensor.buffer, [])\n        if not any(tensor is listed for listed in tensors):\n          tensors.append(tensor)"),
+    'C15.R2', 'each tensor listed once per buffer (seeded a1-C01)', control=True)
+add('C15.skip_pairs', 'C15', (PG, "      if len(tensors) <= 1:\n        continue", "      if len(tensors) <= 2:\n        continue"), 'C15.R1', 'groups of two sharers are skipped')
+add('C15.tail_from_2', 'C15', (PG, "      for tensor in tensors[1:]:", "      for tensor in tensors[2:]:"), 'C15.R1', 'second sharer never compared')
+add('C15.addq_quantized', 'C15', (PG, "  float_source_transformations = [\n      _QuantTrans.ADD_QUANTIZE,\n      _QuantTrans.NO_QUANTIZE,\n  ]\n  quantized_source_transformations = [\n      _QuantTrans.QUANTIZE_TENSOR,\n      _QuantTrans.ADD_DEQUANTIZE,\n  ]",
+    "  float_source_transformations = [\n      _QuantTrans.NO_QUANTIZE,\n  ]\n  quantized_source_transformations = [\n      _QuantTrans.QUANTIZE_TENSOR,\n      _QuantTrans.ADD_DEQUANTIZE,\n      _QuantTrans.ADD_QUANTIZE,\n  ]"),
+    ('C15.R4', 'C15.R5'), 'ADD_QUANTIZE filed as a quantized-source transformation')
+add('C15.params_ignored', 'C15', (PG, "    if params1.parameters != params2.parameters:\n      return False\n", "    pass\n"), 'C15.R5', 'sharers with different parameters declared compatible')
+add('C15.reads_buffer', 'C15', (QTS, "              cast(\n                  np.ndarray, transformation_input.quant_params.quantized_data\n              ).tobytes(),", "              cast(\n                  np.ndarray, transformation_input.buffers[tensor.buffer].data\n              ).tobytes(),"),
+    'C15.R3', 'new bytes derived from the buffer being overwritten')
+add('C15.buffer0', 'C15', (QTS, "  if tensor.buffer:\n    if transformation_input.quant_params.quantized_data is not None:", "  if tensor.buffer is not None:\n    if transformation_input.quant_params.quantized_data is not None:"),
+    'C15.R3', 'the shared empty buffer 0 may be overwritten')
+add('C15.valid_check', 'C15', (TIG, "          transform_type == qtyping.QuantTransformation.QUANTIZE_TENSOR\n          or transform_type == qtyping.QuantTransformation.ADD_DEQUANTIZE", "          transform_type == qtyping.QuantTransformation.QUANTIZE_TENSOR"),
+    'C15.R4', 'ADD_DEQUANTIZE no longer counts as quantizing the tensor in the validity check')
+add('C15.twin_setdefault', 'C15', (FBU, "        if tensor.buffer not in buffer_to_tensor_map:\n          buffer_to_tensor_map[tensor.buffer] = []\n        buffer_to_tensor_map[tensor.buffer].append(tensor)",
+    "        buffer_to_tensor_map.setdefault(tensor.buffer, []).append(tensor)"), (), 'setdefault idiom, every occurrence still listed', kind='twin')
